@@ -24,6 +24,16 @@ class Report:
     notes: dict[str, object] = field(default_factory=dict)
     assumptions: list[str] = field(default_factory=list)
     rules: dict[str, str] = field(default_factory=dict)  # rule id -> one-line statement
+    errors: list[str] = field(default_factory=list)  # rules that could not be carried out (do not mask other rules' findings)
+
+    def attempt(self, what: str, fn, *args, **kw) -> None:
+        """Run one rule group; an AnalysisError in it is recorded (exit 2 unless another rule reports a violation)."""
+        from .loader import AnalysisError
+
+        try:
+            fn(*args, **kw)
+        except AnalysisError as e:
+            self.errors.append(f"{what}: {e}")
 
     def rule(self, rid: str, text: str) -> None:
         self.rules[rid] = text
